@@ -91,7 +91,7 @@ func caseKey(cs Case) string {
 	return sb.String()
 }
 
-const shardSize = 150
+var shardSize = 150 // cases per Coq file; generators with expensive cases lower it
 const scenShard = 12
 
 // AddScenario records one executed scenario for the model comparison
